@@ -10,6 +10,10 @@ a call returns, or raises an exception `common.err_class` maps to value/type/run
   * a parser that read more of a caller's BytesIO than its own serialization (`<entrypoint>:overread`),
   * an accepted object on which a consumer (serialize, sizes, ids, sighash, engine entry, psbt roles)
     leaves the contract (`<entrypoint>-><consumer>:<ExceptionName>`).
+Every callable annotated `-> bool` (functions, class / static / instance methods, properties, __eq__ / __contains__; found
+by introspection) and the engine's verify_* assertions are swept in the QUICK tier by harness/c19_typed.py: each valid seed
+call with one parameter at a time (then two) replaced by every hostile inhabitant of the parameter's declared type; counts
+per entry point are written to evidence (class_histogram["typed.*_per_entry_point"]).
 Entry points are enumerated by introspection of the btclib package on every run (c19_core); inputs
 come from harness/c19_groups.py (structure-aware mutations of valid encodings, random bytes, unicode
 edge strings, JSON values of the wrong type at every key, nesting to depth 10^4), in 16 processes.
@@ -33,6 +37,7 @@ from . import c19_core as C
 from . import c19_gen as G
 from . import c19_groups as Gr
 from . import c19_seeds as S
+from . import c19_typed as Ty
 from .common import hx, unhx
 
 PROP = "C19"
@@ -51,7 +56,11 @@ ASSUMPTIONS = ["configuration integers (sizes, indexes, bit counts) passed besid
                "plausible values: the property quantifies over bytes, text and JSON",
                "an object accepted under check_validity=False from a JSON document is not handed to consumers",
                "keyword pairs that the API requires together (commit/commit_hash with receipt: a documented BTClibTypeError "
-               "caller error, not an invalid signature) are left at their defaults by the typed generator"]
+               "caller error, not an invalid signature) are given together or left at their defaults by the typed generators",
+               "the typed sweep (harness/c19_typed.py) hands a parameter only inhabitants of its DECLARED type (a list is not a "
+               "tuple[int, int], an iterator is not a Sequence, a bytearray is not `bytes`); a bool where `int` is declared is refused "
+               "with BTClibTypeError by the library's documented policy (utils.is_integer: a bool is not an integer), also out of a "
+               "verifier - that one refusal is not counted as 'raises instead of answering'"]
 
 ORACLES = {"call": C.replay_call}
 
@@ -195,6 +204,9 @@ def _worker(task):
             Gr.exhaustive_field_edits(R, group.split(":", 1)[1])
         elif group.startswith("everykey:"):
             Gr.json_every_key(R, group.split(":", 1)[1])
+        elif group == "typed":
+            R.spell_rate = 0.0      # the sweep spells every buffer itself
+            Ty.g_typed(R, rng, n)
         elif group == "spell":
             # every seeded group once more, small, with EVERY call repeated in every spelling
             for g in ("text", "binfunc", "binary", "pred", "generic", "json"):
@@ -216,6 +228,14 @@ def _merge(ctx, res):
         raise common.HarnessError(res["error"])
     for (stream, ep, outcome), k in res["counts"].items():
         ctx.count(stream, outcome, k)
+        if stream in ("typed.answers", "typed.seeds"):
+            # per entry point: how the bool-returning callable answered the typed-hostile sweep
+            h = ctx.hist.setdefault("typed." + ("seed_calls_" if stream == "typed.seeds" else "") + outcome.split(":")[0].lower() + "_per_entry_point", {})
+            h[ep.replace("btclib.", "")] = h.get(ep.replace("btclib.", ""), 0) + k
+            continue
+        if stream == "typed" and outcome != "undriven":
+            h = ctx.hist.setdefault("typed.calls_per_entry_point", {})
+            h[ep.replace("btclib.", "")] = h.get(ep.replace("btclib.", ""), 0) + k
         if stream in ("spell.accepted-vs-refused", "spell.different-values"):
             ctx.__dict__.setdefault("_c19_avr", {})[ep] = ctx.__dict__.setdefault("_c19_avr", {}).get(ep, 0) + k
             continue
@@ -343,6 +363,8 @@ def run(ctx):
         tasks.append(("spell", ctx.rng.getrandbits(62), ctx.n(700, 8000)))
         tasks.append(("coreimport", ctx.rng.getrandbits(62), ctx.n(1500, 40000)))
         tasks.append(("msdecode", (ctx.rng.getrandbits(60) << 1) | part, ctx.n(9000, 10**7)))
+    for part in range(16):          # the typed-hostile sweep of every bool-returning callable: entry point k goes to task k mod 16
+        tasks.append(("typed", (ctx.rng.getrandbits(56) << 4) | part, ctx.n(60, 3000)))
     if ctx.tier == "thorough":
         for name in sorted(S.CLASS_BIN):
             tasks.append((f"exhaustive:{name}", 0, 0))
@@ -443,6 +465,20 @@ def run(ctx):
     undriven = sorted(e for e in eps if e not in driven)
     ctx.note(f"entry points driven: {len([e for e in eps if e in driven])} of {len(eps)}; never driven (a required parameter "
              f"of a type the generator has no values for): {len(undriven)}: " + ", ".join(u.replace('btclib.', '') for u in undriven[:60]))
+    # the typed sweep: every bool-returning callable found by introspection is listed with its counts; an anchored
+    # verifier that was not driven is a harness failure, never a silent gap
+    beps = Ty.bool_entry_points()
+    tcalls = ctx.hist.get("typed.calls_per_entry_point", {})
+    tund = sorted(e.replace("btclib.", "") for e in beps if e.replace("btclib.", "") not in tcalls)
+    ctx.note(f"typed sweep: {len(beps)} bool-returning callables / engine assertions found by introspection (functions, class and static methods, "
+             f"instance methods, properties, __eq__/__contains__), {len(beps) - len(tund)} driven, {sum(tcalls.values())} calls; "
+             f"not driven (no receiver / seed call): {tund}")
+    for e in beps:
+        if (C.is_verifier(e) or e in Ty.ASSERTION_EPS) and e.replace("btclib.", "") not in tcalls:
+            raise common.HarnessError(f"typed sweep: anchored verifier {e} was not driven")
+    srefused = ctx.hist.get("typed.seed_calls_refused_per_entry_point", {})
+    if srefused:
+        ctx.note(f"typed sweep: seed calls that were refused (the sweep still runs from them): {srefused}")
     # declared classes must be populated
     for stream in ("binary", "text", "json", "pred", "generic", "binfunc"):
         h = ctx.hist.get(stream, {})
